@@ -1012,7 +1012,7 @@ func (c *Ctx) c6Mesh(nv int, special int) c6Mesh {
 		m.topo = 1 // points
 	case 3:
 		if c.Rng.Intn(3) == 0 {
-			m.topo = 2 + c.Rng.Intn(4) // quad and line topologies (written without a mode; inside the quantifier of gltf_scene_topo_full)
+			m.topo = 2 + c.Rng.Intn(4) // quad (rejected) and line topologies (written with their mode); inside the quantifier of gltf_scene_topo_full
 		}
 	}
 	if nv > 0 {
